@@ -929,6 +929,9 @@ def _report_alns(ctx, alns, small=False):
 
 def replay(ctx, failure):
     inp = failure["input"]
+    if str(failure.get("kind", "")).startswith("printers:"):
+        from props import C15print
+        return C15print.replay(ctx, failure)["reproduced"]
     if inp.get("level") == "inproc":
         return check_alns(inp["alns"]) is not None
     if inp.get("level") == "records":
